@@ -1069,6 +1069,13 @@ func (p *Peer) query(ctx context.Context, req *Request) (ResultSet, *ResultMetaD
 		return nil, nil, &PeerError{msg: err.Error(), kind: ResponseError, srcErr: err}
 	}
 
+	// cells are addressed by position from here on
+	if err = req.verifyResultWidth(data); err != nil {
+		logWith(p, req).Debugf("result verification failed: %s", err.Error())
+
+		return nil, nil, &PeerError{msg: err.Error(), kind: ResponseError, req: req, resBytes: resBytes}
+	}
+
 	meta.Duration = duration
 	meta.Size = len(resBytes)
 
